@@ -560,7 +560,7 @@ func (x *Exec) assertOp(cnd *term.Term, label string) {
 	}
 	var r smt.Result
 	var m map[string]uint64
-	if v, ok := x.evalTerm(cnd); ok && v == 0 && x.guard == nil {
+	if v, ok := x.evalTerm(cnd); ok && v == 0 && x.guard == nil && x.model != nil {
 		r, m = smt.Sat, x.model // the concolic model is already a counterexample
 	} else {
 		r, m = x.check(neg, x.ctx.Vars)
